@@ -13,6 +13,7 @@ import (
 	"go/token"
 	"os"
 	"os/exec"
+	"reflect"
 	"strings"
 	"testing"
 
@@ -23,6 +24,8 @@ import (
 	"pgregory.net/rapid"
 
 	"verif/harness/c05"
+	"verif/harness/c08"
+	"verif/harness/c09"
 	"verif/harness/gobatch"
 	"verif/harness/gobatch/rec"
 	"verif/harness/progen"
@@ -37,7 +40,7 @@ func TestMain(m *testing.M) {
 		return
 	}
 	vrec = vlib.Open("C18")
-	vrec.Rule("cases = (program, option set, entry path) triples: programs from the C05 control-flow generator plus a generator of programs that panic at a random point (run-time error classes and user panics, with and without recover), " +
+	vrec.Rule("cases = (program, option set, entry path) triples: programs from the C05 control-flow, C08 composite/builtin and C09 method/embedding/interface generators, a generator of programs that panic at a random point (run-time error classes and user panics, with and without recover) and a generator of promoted fields and methods through named and unnamed struct types and pointers to them, " +
 		"each evaluated through Interp.Eval and through the REPL path (ParseEvalPrint per declaration) under all 32 combinations of {Debugger, Collect Declarations+Statements, TrapPanic, PanicStackTrace, KeepUntyped} and, in a worker process, with the CTI generics extension on; " +
 		"compared with the default-option Eval run: trace, whether a panic ended the run and its canonical value; plus random constant expressions evaluated with and without KeepUntyped (value equality). " +
 		"A case is non-trivial when the program declares at least one function besides the entry (debug-mode function path) or ends in a panic; distinct = distinct program texts")
@@ -227,12 +230,70 @@ func genPanic(t *rapid.T, px string) gobatch.Program {
 	return gobatch.Program{Decls: decls, Entry: entry, Tags: []string{"panic-program", fmt.Sprintf("panic-kind-%d", kind)}}
 }
 
+// genEmbed: named types with value and pointer receiver methods, embedded by value and by
+// pointer in named structs, in unnamed struct types and behind pointers to them; promoted
+// fields and methods are used through every one of them and through an interface.
+func genEmbed(t *rapid.T, px string) gobatch.Program {
+	g := progen.New(t, px, 20)
+	base := g.Top("Counter")
+	decls := []string{
+		fmt.Sprintf("type %s struct{ n int }", base),
+		fmt.Sprintf("func (c *%s) Inc() int { c.n += %d; return c.n }", base, g.Int(1, 5, "inc")),
+		fmt.Sprintf("func (c %s) Get() int { return c.n * %d }", base, g.Int(1, 3, "mul")),
+	}
+	named := g.Top("Outer")
+	byPtr := g.Bool("embed-by-pointer")
+	emb, lit := base, fmt.Sprintf("%s{%d}", base, g.Int(0, 9, "n0"))
+	if byPtr {
+		emb, lit = "*"+base, "&"+lit
+	}
+	decls = append(decls, fmt.Sprintf("type %s struct {\n\t%s\n\ttag string\n}", named, emb))
+	iface := g.Top("Getter")
+	decls = append(decls, fmt.Sprintf("type %s interface{ Get() int }", iface))
+	var body strings.Builder
+	n := g.Int(2, 6, "uses")
+	for i := 0; i < n; i++ {
+		ev := g.Ev()
+		switch g.Pick(6, "use") {
+		case 0: // named outer struct, addressable
+			fmt.Fprintf(&body, "{\n\to := %s{%s, \"a\"}\n\trec.E(%d, o.Inc(), o.Get(), o.n, o.tag)\n}\n", named, lit, ev)
+		case 1: // pointer to named outer struct
+			fmt.Fprintf(&body, "{\n\tp := &%s{%s, \"b\"}\n\trec.E(%d, p.Inc(), p.Inc(), p.Get(), p.n)\n}\n", named, lit, ev)
+		case 2: // unnamed struct type embedding the named type
+			fmt.Fprintf(&body, "{\n\tu := struct {\n\t\t%s\n\t\ttag string\n\t}{%s, \"c\"}\n\trec.E(%d, u.Inc(), u.Get(), u.n)\n}\n", emb, lit, ev)
+		case 3: // pointer to an unnamed struct type embedding the named type
+			fmt.Fprintf(&body, "{\n\tq := &struct {\n\t\t%s\n\t\ttag string\n\t}{%s, \"d\"}\n\trec.E(%d, q.Inc(), q.Get(), q.n, q.tag)\n}\n", emb, lit, ev)
+		case 4: // through an interface
+			fmt.Fprintf(&body, "{\n\tvar i %s = %s{%s, \"e\"}\n\trec.E(%d, i.Get())\n}\n", iface, named, lit, ev)
+		default: // method values
+			fmt.Fprintf(&body, "{\n\tp := &%s{%s, \"f\"}\n\tf, h := p.Inc, p.Get\n\trec.E(%d, f(), f(), h(), p.Get())\n}\n", named, lit, ev)
+		}
+	}
+	entry := g.Top("main")
+	decls = append(decls, fmt.Sprintf("func %s() {\n%s}", entry, progen.Indent(body.String())))
+	return gobatch.Program{Decls: decls, Entry: entry, Tags: []string{"embedding-program"}}
+}
+
 var gens = []struct {
 	name string
 	gen  func(*rapid.T, string) gobatch.Program
 }{
 	{"c05-control-flow", c05.Generate},
 	{"panic-at-random-point", genPanic},
+	{"embedding-and-method-sets", genEmbed},
+	{"c08-composites-and-builtins", c08.Generate},
+	{"c09-methods-embedding-interfaces", c09.Generate},
+}
+
+func init() {
+	// the C08 generator avoids the shapes of its known findings only when told to: avoid all
+	// of them here (under every option set they fail the same way, which proves nothing)
+	v := reflect.ValueOf(&c08.Avoid).Elem()
+	for i := 0; i < v.NumField(); i++ {
+		if v.Field(i).Kind() == reflect.Bool {
+			v.Field(i).SetBool(true)
+		}
+	}
 }
 
 // ---------------------------------------------------------------- the property
@@ -303,7 +364,7 @@ func TestOptionInvariance(t *testing.T) {
 		for _, m := range masks {
 			vrec.Label("options:" + comboName(m))
 		}
-		if len(p.Decls) > 1 || p.HasTag("panic-program") {
+		if len(p.Decls) > 1 || p.HasTag("panic-program") || p.HasTag("embedding-program") {
 			vrec.NT(p.Source("p"))
 		}
 		if len(kept) < 400 {
